@@ -627,7 +627,7 @@ def jobs_for(pid, tier):
     table = {
         "C01": shaped(core) + tmap + tbig + deep("core", ["core"]),
         "C07": shaped(setcore + both("setbulk", ["bulk"], mode="set", consts={"MaxExtra": 1}, bigconsts={"Vers": [0]})) + tset + deep("setcore", ["core"], mode="set"),
-        "C09": both("cursor", ["cursor"]) + setcore + tmap + tset + deep("cursor", ["cursor"]) + deep("setcore", ["core"], mode="set"),
+        "C09": shaped(both("cursor", ["cursor"])) + shaped(setcore) + tmap + tset + deep("cursor", ["cursor"]) + deep("setcore", ["core"], mode="set"),
         "C10": shaped(both("cursor", ["cursor"]) + core) + setcore + tmap + tset + deep("cursor", ["cursor"]) + deep("setcore", ["core"], mode="set"),
         "C11": both("entry", ["entry"]) + tmap + deep("entry", ["entry"]),
         "C12": core + both("entry", ["entry"]) + setcore + tmap + tset
